@@ -11,7 +11,7 @@ From Apko Require Import Base.Prelude Generated.VersionConsts Generated.C03Versi
   Spec.ResolveSpec Proofs.ResolveProofs Proofs.ResolveProofs2 Proofs.ResolveTheorems Proofs.ResolveEnvelope Proofs.ResolveNoPanic.
 From Apko Require Proofs.ResolveClosure2.
 From Apko Require Import Spec.ResolveMultiSpec Proofs.ResolveMulti Proofs.ResolveMulti2 Proofs.ResolveMultiWitness Proofs.ResolveConflicts.
-From Apko Require Import Generated.C02Resolver Proofs.ResolveGenerated.
+From Apko Require Import Generated.C02Resolver Proofs.ResolveGenerated Proofs.ResolveMultiSubsumes.
 Open Scope string_scope. Open Scope list_scope. Open Scope nat_scope.
 
 (* the verified validator run on the implementation's results decides the specification *)
@@ -172,6 +172,13 @@ Example c02_closed_multi_version_example_virtual :
   resolve U_virtual ["tool"; "app"; "sh"] [] = Ok [1; 6; 2; 7; 0] /\
   closed_b U_virtual ["tool"; "app"; "sh"] (pkgs_of U_virtual [1; 6; 2; 7; 0]) = true.
 Proof. exact virtual_example. Qed.
+
+(* the envelope of c02_closed_partial is a special case, whatever the initial disqualification set:
+   c02_closed_multi_version is a strict widening (the two Examples above lie outside the old envelope) *)
+Theorem c02_old_envelope_is_a_special_case : forall U W,
+  envelope_b U W = true -> menvelope_b U W = true /\ forall dq0, dq0_ok_b U dq0 = true.
+Proof. exact old_envelope_special_case. Qed.
+Print Assumptions c02_old_envelope_is_a_special_case.
 
 (* REFUTED: "the envelope minus one clause suffices", for the clauses at positions 0, 3, 4, 5, 6 of
    m_clauses: on each witness exactly that clause fails and the successful result is not closed.
